@@ -34,6 +34,11 @@ def run(tier: str) -> int:
     fams.append({"Family": "ci", "MaxLen": 3, "Starts": "zero", "Sample": 300 if not thorough else 0, "workers": 3 if not thorough else 8, "style": "min", "modes": ("interp", "gen", "opt", "optgen")})
     # every bounded repetition with small bounds, degenerate ones included (e{0}, e{,0}, e{0,n}, e{n,n})
     fams.append({"Family": "bounds", "MaxLen": 4, "Starts": "zero", "Sample": 300 if not thorough else 0, "workers": 3 if not thorough else 8, "modes": ("interp", "gen", "opt", "optgen")})
+    four = ("interp", "gen", "opt", "optgen")
+    # the skip idiom (overlapping terminators, every order), look-alike literals, and one choice used both as WHITESPACE and as an alternative
+    fams.append({"Family": "optsk", "MaxLen": 4, "Starts": "zero", "Sample": 200 if not thorough else 0, "workers": 3 if not thorough else 8, "style": "min", "modes": four})
+    fams.append({"Family": "sqesc", "MaxLen": 3, "Starts": "zero", "Sample": 250 if not thorough else 0, "workers": 3 if not thorough else 8, "style": "min", "modes": four})
+    fams.append({"Family": "sqws", "MaxLen": 4, "Starts": "zero", "Sample": 0, "workers": 3 if not thorough else 8, "style": "min", "modes": four})
     for f in fams:
         replay.run_family(rep, f, "sem", f.get("modes", modes))
     rep.rule = (
